@@ -1590,7 +1590,26 @@ def _shared_opaque(a, b):
             if at.kind == 'fn' and at.name not in known and not at.name.startswith(('ext:', 'array', 'strop', 'fstring')):
                 out.add(k)
         return out
-    return collect(a) & collect(b)
+    ca, cb = collect(a), collect(b)
+    free = ca & cb
+    # file content read by one side only (a 'bytes' generator at an offset the other side never reads) is an independent input as well,
+    # and so is anything decoded from it
+    for mine, other in ((ca, cb), (cb, ca)):
+        lonely_bytes = set(k for k in mine - other if TABLE.atoms[k].name == 'bytes')
+        if not lonely_bytes:
+            continue
+        for k in mine - other:
+            at = TABLE.atoms[k]
+            if k in lonely_bytes:
+                free.add(k)
+                continue
+            deps = set()
+            for x in at.args:
+                if isinstance(x, Rat):
+                    deps |= set(x.atoms(deep=True))
+            if deps & lonely_bytes:
+                free.add(k)
+    return free
 
 
 def numeric_witness(a, b, ranges, trials=6, rel=1e-8):
